@@ -51,12 +51,12 @@ def run(tier, seed):
     ck.binary = vlib.build_harness()
     rr = vlib.run_harness(ck.binary, PROP, vec, seed=seed, tier=tier, shards=8, timeout=3000, isolate=True,
                           extra_args=["-maxstack", "512"])
-    os.unlink(vec)
     ck.absorb(rr)
     for cr in rr.crashes:
         ck.violations.append(({"t": "div", "prop": PROP, "api": "process", "want": "no fatal error",
                                "got": "fatal: " + cr["stderr"][:500], "case": {"vector_index": cr["index"], "shard": cr["shard"]}}, 1))
     ck.triage(rr.divs, rerun=rr.again)
+    os.unlink(vec)
     # open finding F-C06-1: a self-referential map or slice type overflows the stack while its codec is built
     probe = subprocess.run([ck.binary, "c06rectype"], stdout=subprocess.PIPE, stderr=subprocess.PIPE, text=True, env=vlib.GOENV)
     if "stack overflow" in probe.stderr or "goroutine stack exceeds" in probe.stderr:
